@@ -45,11 +45,14 @@ Local Open Scope R_scope.
                                       it as Err unless the guess had a small residual;
         newton_sys_empty_panics / newton_sysjac_empty_panics
                                       1 <= rows M is sharp: a 0-dimensional system panics (norm_inf reads vec[0]).
-   Still not proved: float rounding (tie); basins for nonlinear systems of dimension > 1; nonlinear complex functions.
+   E. nonlinear systems of ANY dimension in the decoupled case F(x)_i = f_i(x_i) with the exact diagonal Jacobian
+      (solve_jacobian over R): sysjac_decoupled_pass, newton_decoupled_no_panic / _ok_close / _ok -- both halves,
+      sup-norm basin, quadratic contraction; the dim x dim elimination of each pass is discharged by C01.
+   Still not proved: float rounding (tie); basins for COUPLED nonlinear systems of dimension > 1; nonlinear complex functions.
    ====================================================================================== *)
 From Coq Require Import Lia.
 From OV Require Import Proofs.SolveBase Proofs.Solve Proofs.SolveQc Proofs.Newton2Sys Proofs.Newton2Real
-  Proofs.Newton2Scalar Proofs.Newton2Mono Proofs.Newton2Sqrt Proofs.Newton2Sys1d Proofs.Newton2Wit.
+  Proofs.Newton2Scalar Proofs.Newton2Mono Proofs.Newton2Sqrt Proofs.Newton2Sys1d Proofs.Newton2Diag Proofs.Newton2Wit.
 From OV Require Proofs.SolveC Proofs.Newton2Inst Proofs.Newton2Cplx Proofs.Newton2Cdq.
 Local Close Scope R_scope.
 Local Open Scope nat_scope.
@@ -758,6 +761,134 @@ Print Assumptions newton_sysjac_empty_panics.
 
 Example newton_sys_empty_panics_nonvacuous : (fun p : list AQ => Ok p) [] = Ok [].
 Proof. reflexivity. Qed.
+
+(* ---------------- E. nonlinear systems of ANY dimension, decoupled case (solve_jacobian over R) ----------------
+   F(x)_i = f_i(x_i), jac(x) = diag(f_i'(x_i)), i < dim, for arbitrary closures returning these values; each f_i as in
+   part B on [a_i, b_i] with common constants m, Mb, L and root r_i.  The dim x dim Gaussian elimination of every pass
+   is discharged by C01 (completeness + soundness + a left inverse of the diagonal matrix). *)
+Local Open Scope R_scope.
+Definition decoupled_system (dim : nat) (f f' : nat -> R -> R) (F : list R -> res (list R)) (Jc : list R -> res (matrix AR)) : Prop :=
+  (forall x, length x = dim ->
+     exists v, F x = Ok v /\ length v = dim /\ forall i, (i < dim)%nat -> nth i v 0 = f i (nth i x 0)) /\
+  (forall x, length x = dim ->
+     exists J, Jc x = Ok J /\ wf J /\ rows J = dim /\ cols J = dim /\
+       forall i j, (i < dim)%nat -> (j < dim)%nat -> ent J i j = if (i =? j)%nat then f' i (nth i x 0) else 0).
+Definition smooth_components (dim : nat) (f f' : nat -> R -> R) (a b r : nat -> R) (m Mb L : R) : Prop :=
+  (forall i, (i < dim)%nat -> forall c, a i <= c <= b i -> derivable_pt_lim (f i) c (f' i c)) /\ 0 < m /\ 0 <= L /\
+  (forall i, (i < dim)%nat -> forall c, a i <= c <= b i -> m <= Rabs (f' i c)) /\
+  (forall i, (i < dim)%nat -> forall c, a i <= c <= b i -> Rabs (f' i c) <= Mb) /\
+  (forall i, (i < dim)%nat -> forall u v, a i <= u <= b i -> a i <= v <= b i -> Rabs (f' i u - f' i v) <= L * Rabs (u - v)) /\
+  (forall i, (i < dim)%nat -> f i (r i) = 0).
+
+(* one pass, any dimension: x'_i = x_i - f_i(x_i)/f_i'(x_i), the test compares max_i |f_i(x_i)| with tol *)
+Theorem sysjac_decoupled_pass : forall (dim : nat) (f f' : nat -> R -> R) F Jc, (1 <= dim)%nat ->
+  decoupled_system dim f f' F Jc ->
+  forall (tl : R) (x : list R), length x = dim -> (forall i, (i < dim)%nat -> f' i (nth i x 0) <> 0) ->
+  exists x' mr e, sysjac_step NRl tl F Jc x = Ok (x', R_leb mr tl, e) /\ length x' = dim /\
+    (forall i, (i < dim)%nat -> nth i x' 0 = nth i x 0 - f i (nth i x 0) / f' i (nth i x 0)) /\
+    (forall i, (i < dim)%nat -> Rabs (f i (nth i x 0)) <= mr) /\
+    (exists i, (i < dim)%nat /\ mr = Rabs (f i (nth i x 0))).
+Proof. intros dim f f' F Jc Hd [HF HJ]. exact (diag_pass dim f f' F Jc Hd HF HJ). Qed.
+Check sysjac_decoupled_pass : forall (dim : nat) (f f' : nat -> R -> R) F Jc, (1 <= dim)%nat ->
+  decoupled_system dim f f' F Jc ->
+  forall (tl : R) (x : list R), length x = dim -> (forall i, (i < dim)%nat -> f' i (nth i x 0) <> 0) ->
+  exists x' mr e, sysjac_step NRl tl F Jc x = Ok (x', R_leb mr tl, e) /\ length x' = dim /\
+    (forall i, (i < dim)%nat -> nth i x' 0 = nth i x 0 - f i (nth i x 0) / f' i (nth i x 0)) /\
+    (forall i, (i < dim)%nat -> Rabs (f i (nth i x 0)) <= mr) /\
+    (exists i, (i < dim)%nat /\ mr = Rabs (f i (nth i x 0))).
+Print Assumptions sysjac_decoupled_pass.
+
+(* sup-norm basin |x0_i - r_i| <= rho with (L/m) rho < 1 inside the intervals: no panic *)
+Theorem newton_decoupled_no_panic : forall (dim : nat) (f f' : nat -> R -> R) F Jc, (1 <= dim)%nat ->
+  decoupled_system dim f f' F Jc ->
+  forall (a b r : nat -> R) (m Mb L rho tl : R), smooth_components dim f f' a b r m Mb L ->
+  0 <= rho -> (forall i, (i < dim)%nat -> a i <= r i - rho /\ r i + rho <= b i) -> L / m * rho < 1 ->
+  forall (dl : R) (n : nat) (x0 : list R),
+  (length x0 = dim /\ forall i, (i < dim)%nat -> Rabs (nth i x0 0 - r i) <= rho) ->
+  exists res evs, newton_sysjac NRl (mkCfg tl dl n x0) F Jc = Ok (res, evs).
+Proof.
+  intros dim f f' F Jc Hd [HF HJ] a b r m Mb L rho tl (H1 & H2 & H3 & H4 & H5 & H6 & H7).
+  exact (newton_diag_total_lemma dim f f' F Jc Hd HF HJ a b r m Mb L rho tl H1 H2 H3 H4 H5 H6 H7).
+Qed.
+Check newton_decoupled_no_panic : forall (dim : nat) (f f' : nat -> R -> R) F Jc, (1 <= dim)%nat ->
+  decoupled_system dim f f' F Jc ->
+  forall (a b r : nat -> R) (m Mb L rho tl : R), smooth_components dim f f' a b r m Mb L ->
+  0 <= rho -> (forall i, (i < dim)%nat -> a i <= r i - rho /\ r i + rho <= b i) -> L / m * rho < 1 ->
+  forall (dl : R) (n : nat) (x0 : list R),
+  (length x0 = dim /\ forall i, (i < dim)%nat -> Rabs (nth i x0 0 - r i) <= rho) ->
+  exists res evs, newton_sysjac NRl (mkCfg tl dl n x0) F Jc = Ok (res, evs).
+Print Assumptions newton_decoupled_no_panic.
+
+(* every Ok answer is componentwise within (L/m) (tol/m)^2 of the root *)
+Theorem newton_decoupled_ok_close : forall (dim : nat) (f f' : nat -> R -> R) F Jc, (1 <= dim)%nat ->
+  decoupled_system dim f f' F Jc ->
+  forall (a b r : nat -> R) (m Mb L rho tl : R), smooth_components dim f f' a b r m Mb L ->
+  0 <= rho -> (forall i, (i < dim)%nat -> a i <= r i - rho /\ r i + rho <= b i) -> L / m * rho < 1 ->
+  forall (dl : R) (n : nat) (x0 x : list R) evs,
+  (length x0 = dim /\ forall i, (i < dim)%nat -> Rabs (nth i x0 0 - r i) <= rho) ->
+  newton_sysjac NRl (mkCfg tl dl n x0) F Jc = Ok (NOk x, evs) ->
+  (length x = dim /\ forall i, (i < dim)%nat -> Rabs (nth i x 0 - r i) <= rho) /\
+  forall i, (i < dim)%nat -> Rabs (nth i x 0 - r i) <= L / m * (tl / m * (tl / m)).
+Proof.
+  intros dim f f' F Jc Hd [HF HJ] a b r m Mb L rho tl (H1 & H2 & H3 & H4 & H5 & H6 & H7).
+  exact (newton_diag_ok_close_lemma dim f f' F Jc Hd HF HJ a b r m Mb L rho tl H1 H2 H3 H4 H5 H6 H7).
+Qed.
+Check newton_decoupled_ok_close : forall (dim : nat) (f f' : nat -> R -> R) F Jc, (1 <= dim)%nat ->
+  decoupled_system dim f f' F Jc ->
+  forall (a b r : nat -> R) (m Mb L rho tl : R), smooth_components dim f f' a b r m Mb L ->
+  0 <= rho -> (forall i, (i < dim)%nat -> a i <= r i - rho /\ r i + rho <= b i) -> L / m * rho < 1 ->
+  forall (dl : R) (n : nat) (x0 x : list R) evs,
+  (length x0 = dim /\ forall i, (i < dim)%nat -> Rabs (nth i x0 0 - r i) <= rho) ->
+  newton_sysjac NRl (mkCfg tl dl n x0) F Jc = Ok (NOk x, evs) ->
+  (length x = dim /\ forall i, (i < dim)%nat -> Rabs (nth i x 0 - r i) <= rho) /\
+  forall i, (i < dim)%nat -> Rabs (nth i x 0 - r i) <= L / m * (tl / m * (tl / m)).
+Print Assumptions newton_decoupled_ok_close.
+
+(* and the answer IS Ok as soon as Mb q^N rho <= tol with q = (L/m) rho and N < max_iter *)
+Theorem newton_decoupled_ok : forall (dim : nat) (f f' : nat -> R -> R) F Jc, (1 <= dim)%nat ->
+  decoupled_system dim f f' F Jc ->
+  forall (a b r : nat -> R) (m Mb L rho tl : R), smooth_components dim f f' a b r m Mb L ->
+  0 <= rho -> (forall i, (i < dim)%nat -> a i <= r i - rho /\ r i + rho <= b i) -> L / m * rho < 1 ->
+  forall (dl : R) (N n : nat) (x0 : list R),
+  (length x0 = dim /\ forall i, (i < dim)%nat -> Rabs (nth i x0 0 - r i) <= rho) ->
+  Mb * ((L / m * rho) ^ N * rho) <= tl -> (N < n)%nat ->
+  exists x evs, newton_sysjac NRl (mkCfg tl dl n x0) F Jc = Ok (NOk x, evs) /\
+    (length x = dim /\ forall i, (i < dim)%nat -> Rabs (nth i x 0 - r i) <= rho) /\
+    forall i, (i < dim)%nat -> Rabs (nth i x 0 - r i) <= L / m * (tl / m * (tl / m)).
+Proof.
+  intros dim f f' F Jc Hd [HF HJ] a b r m Mb L rho tl (H1 & H2 & H3 & H4 & H5 & H6 & H7).
+  exact (newton_diag_ok_lemma dim f f' F Jc Hd HF HJ a b r m Mb L rho tl H1 H2 H3 H4 H5 H6 H7).
+Qed.
+Check newton_decoupled_ok : forall (dim : nat) (f f' : nat -> R -> R) F Jc, (1 <= dim)%nat ->
+  decoupled_system dim f f' F Jc ->
+  forall (a b r : nat -> R) (m Mb L rho tl : R), smooth_components dim f f' a b r m Mb L ->
+  0 <= rho -> (forall i, (i < dim)%nat -> a i <= r i - rho /\ r i + rho <= b i) -> L / m * rho < 1 ->
+  forall (dl : R) (N n : nat) (x0 : list R),
+  (length x0 = dim /\ forall i, (i < dim)%nat -> Rabs (nth i x0 0 - r i) <= rho) ->
+  Mb * ((L / m * rho) ^ N * rho) <= tl -> (N < n)%nat ->
+  exists x evs, newton_sysjac NRl (mkCfg tl dl n x0) F Jc = Ok (NOk x, evs) /\
+    (length x = dim /\ forall i, (i < dim)%nat -> Rabs (nth i x 0 - r i) <= rho) /\
+    forall i, (i < dim)%nat -> Rabs (nth i x 0 - r i) <= L / m * (tl / m * (tl / m)).
+Print Assumptions newton_decoupled_ok.
+
+(* (x, y) |-> (x^3 - 2, y^3 - 2) with its diagonal Jacobian, from (5/4, 13/10), rho = 1/10 (q = 2/5), tol = 2, N = 0 *)
+Example newton_decoupled_nonvacuous :
+  (1 <= 2)%nat /\ decoupled_system 2 (fun _ => cube2) (fun _ => cube2') F2w J2w /\
+  smooth_components 2 (fun _ => cube2) (fun _ => cube2') (fun _ => 1) (fun _ => 2) (fun _ => rc) 3 12 12 /\
+  0 <= 1 / 10 /\ (forall i, (i < 2)%nat -> 1 <= rc - 1 / 10 /\ rc + 1 / 10 <= 2) /\ 12 / 3 * (1 / 10) < 1 /\
+  (length [5 / 4; 13 / 10] = 2%nat /\ forall i, (i < 2)%nat -> Rabs (nth i [5 / 4; 13 / 10] 0 - rc) <= 1 / 10) /\
+  12 * ((12 / 3 * (1 / 10)) ^ 0 * (1 / 10)) <= 2 /\ (0 < 1)%nat.
+Proof.
+  pose proof rc_bounds as Hrc.
+  split; [lia|]. split; [split; [exact F2w_spec|exact J2w_spec]|].
+  split.
+  { split; [intros i _ c _; apply cube2_der|]. split; [lra|]. split; [lra|].
+    split; [intros i _; exact cube2_lo|]. split; [intros i _; exact cube2_hi|].
+    split; [intros i _; exact cube2_lip|]. intros i _. exact rc_root. }
+  split; [lra|]. split; [intros i _; lra|]. split; [lra|]. split; [exact ball2w|].
+  split; [cbn [pow]; lra|auto].
+Qed.
+Local Close Scope R_scope.
 (* ======================================================================================
    C18, round two (package newton2) -- to be appended at the END of Props/C18.v.
    The O(delta) claim, over the reals (NRl = the real instance of Proofs/NewtonReal.v): whatever matrix
